@@ -219,3 +219,23 @@ def dnf_keeps_clauses(ctx):
     rec = [c for fb in fam for c in fb.calls(r'AccessPolicy::to_dnf$')]
     ctx.check(len(rec) >= 4, key, 'recurses on both operands', 'to_dnf recurses %d times; both operands of a conjunction and of a disjunction '
               'must be converted' % len(rec), '%d recursive calls' % len(rec), F.fn(key).where())
+
+
+@rule('C15', 'names-trimmed')
+def names_trimmed(ctx):
+    """Attribute names are preserved modulo surrounding spaces: QualifiedAttribute::try_from splits at the first `::`
+    and trims BOTH halves (each trim applied to one half of the split, not to the whole input)."""
+    F = ctx.F
+    tb = F.fn('<abe_policy::attribute::QualifiedAttribute as std::convert::TryFrom<&str>>::try_from')
+    sp = tb.calls(r'^core::str::<impl str>::split_once$')
+    tr = tb.calls(r'^core::str::<impl str>::trim$')
+    ok = len(sp) == 1 and len(tr) == 2
+    halves = set()
+    if ok:
+        for c in tr:
+            for r in copy_chain_sources(tb, c.args[0], through_calls=IDENTITY_CALLS + (r'^std::ops::Try::branch$', r'ok_or_else$', r'ok_or$')):
+                if r[0] == 'call' and r[1] is sp[0]:
+                    halves.add(tuple(x for x in r[2] if x in ('0', '1'))[-1:])
+    ctx.check(ok and halves == {('0',), ('1',)}, tb.key, 'both halves trimmed',
+              'QualifiedAttribute::try_from does not trim the dimension and the component separately (trims: %d, halves trimmed: %s): '
+              '"DPT :: FIN" keeps its inner spaces in the names' % (len(tr), sorted(halves)), 'split_once("::") then trim() on each half', tb.where())
